@@ -445,9 +445,11 @@ def check_dump_against_model(out, net, D, Pref, params, rows, R, mix, wit, varia
         sc = float(np.max(np.abs(Pref["A"][r])))
         rel = 1e-6 + (3.0 * sight / Rq if o.kind in g3gen.ANGULAR else 1e-6)
         ea = float(np.max(np.abs(A[r] - Pref["A"][r])))
-        # + the tilt of the station's normal with its position (1/R per metre = 1e-4 cc/mm), which gama-g3 neglects
-        tola = rel * sc + 1e-8 + (1.5 * float(g3gen.RAD_TO_CC) / 1000.0 / Rq if o.kind in g3gen.ANGULAR else 0.0)
-        out.ratio("f: jacobian dump vs model (%s)" % ("angular" if o.kind in g3gen.ANGULAR else "linear"), ea, tola)
+        # + the tilt of the station's vertical with its position (1/R per metre = 1e-4 cc/mm): gama-g3 has that term for
+        # zenith angles (there only 5 % of it is allowed, for its second-order companions), not for angles / azimuths
+        tilt = float(g3gen.RAD_TO_CC) / 1000.0 / Rq
+        tola = rel * sc + 1e-8 + ((0.05 if o.kind == "zenith" else 1.5) * tilt if o.kind in g3gen.ANGULAR else 0.0)
+        out.ratio("f: jacobian dump vs model (%s)" % (o.kind if o.kind in g3gen.ANGULAR else "linear"), ea, tola)
         if ea > tola and ("jac", kind) not in seen:
             seen.add(("jac", kind))
             j = int(np.argmax(np.abs(A[r] - Pref["A"][r])))
@@ -995,8 +997,8 @@ def run(tier, seed, only=None):
         "networks are admitted only if the reference rank is unambiguous and kappa <= 2e3 (terrestrial-only free networks have "
         "near-singular orientation on the ellipsoid and are not generated)",
         "Jacobian rows of the dump are compared with the differentiated model up to the terms gama-g3 drops by design (dependence "
-        "of the station's normal / horizon on its position: 3 x sight / R relative, 1/R per metre absolute); relation b bounds "
-        "their effect on the result",
+        "of the station's horizon on its position: 3 x sight / R relative for angular rows, 1/R per metre absolute for angles and "
+        "azimuths, 5 % of that for zenith angles, whose tilt term gama-g3 carries); relation b bounds their effect on the result",
         "deflections of the vertical are zero; <unused> points and the <height> attribute are not exercised"]
     if only is None:
         ck.minimum = dict(evaluations=tier_n(tier, 700, 10000), distinct=tier_n(tier, 200, 1500),
